@@ -5,12 +5,6 @@ open UrcuVerif.Lfht
 
 def IsPow2 (x : Nat) : Prop := ∃ k, x = 2^k
 
-/-- the allocator actually used: explicit, or `get_mm_type(max_nr_buckets)` -/
-def resolveMm (mm : Option Mm) (maxB : Nat) : Mm :=
-  match mm with
-  | some m => m
-  | none => defaultMm maxB
-
 /-- the acceptance rule: `min_nr_alloc_buckets` and `init_size` powers of two, `max_nr_buckets` a
 power of two or 0 – and 0 ("unlimited") only with the order allocator (explicit or by default) -/
 def NewAccepts (init minA maxB : Nat) (mm : Option Mm) : Prop :=
@@ -48,36 +42,25 @@ theorem pow2_lt64 {x : Nat} (h : IsPow2 x) (hx : x < 2^64) : ∃ k, k < 64 ∧ x
   obtain ⟨k, rfl⟩ := h
   exact ⟨k, (Nat.pow_lt_pow_iff_right (by decide)).1 hx, rfl⟩
 
-theorem resolve_eq (mm : Option Mm) (maxB : Nat) :
-    (match mm with | some m => m | none => defaultMm maxB) = resolveMm mm maxB := by
-  cases mm <;> rfl
-
 theorem pow2c_t {x : Nat} (h : IsPow2 x) : isPow2C x = true := (isPow2C_iff x).2 h
 theorem pow2c_f {x : Nat} (h : ¬ IsPow2 x) : isPow2C x = false := by
   cases hc : isPow2C x
   · rfl
   · exact absurd ((isPow2C_iff x).1 hc) h
 
-/-- `max_nr_buckets` as tested for being a power of two (0 ↦ 2^63 for the order allocator) -/
-def preMax (mm : Option Mm) (maxB : Nat) : Nat :=
-  if resolveMm mm maxB = .order ∧ maxB = 0 then 2^63 else maxB
-
 theorem newNorm_eq (page init minA maxB flags : Nat) (mm : Option Mm) :
     newNorm page init minA maxB flags mm =
-      if isPow2C minA = false ∨ isPow2C init = false ∨ isPow2C (preMax mm maxB) = false then none
+      if isPow2C minA = false ∨ isPow2C init = false ∨ isPow2C (preMax (resolveMm mm maxB) maxB) = false then none
       else
-        let eM := max (preMax mm maxB) (max minA 1)
-        let mA := match resolveMm mm maxB with
-          | .order => max minA 1
-          | .chunk => max (max minA 1) (eM / 1024)
-          | .mmap => if eM ≤ page then eM else max (max minA 1) page
+        let eM := max (preMax (resolveMm mm maxB) maxB) (max minA 1)
+        let mA := allocMin page (resolveMm mm maxB) (max minA 1) eM
         some { size := 2 ^ countOrderNat (min (max init 1) eM), minAlloc := mA,
                minAllocOrder := countOrderNat mA, maxB := eM, mm := resolveMm mm maxB, flags := flags } := by
-  have hpm : (if (resolveMm mm maxB == Mm.order && maxB == 0) = true then 2 ^ (Gen.MAX_TABLE_ORDER - 1) else maxB)
-      = preMax mm maxB := by
-    simp [preMax, max_table_order_eq]
-  simp only [newNorm, resolve_eq, hpm, min_table_size_eq, max_chunk_table_eq]
-  cases isPow2C minA <;> cases isPow2C init <;> cases isPow2C (preMax mm maxB) <;> simp
+  simp only [newNorm, min_table_size_eq]
+  cases isPow2C minA <;> cases isPow2C init <;> cases isPow2C (preMax (resolveMm mm maxB) maxB) <;> simp
+
+theorem preMax_eq (mm : Mm) (maxB : Nat) : preMax mm maxB = if mm = .order ∧ maxB = 0 then 2^63 else maxB := by
+  simp [preMax, max_table_order_eq]
 
 /-- **accept/reject exactly as the code** -/
 theorem newNorm_isSome_iff (page init minA maxB flags : Nat) (mm : Option Mm) :
@@ -86,22 +69,123 @@ theorem newNorm_isSome_iff (page init minA maxB flags : Nat) (mm : Option Mm) :
   unfold NewAccepts
   by_cases h1 : IsPow2 minA
   · by_cases h2 : IsPow2 init
-    · by_cases h3 : IsPow2 (preMax mm maxB)
+    · by_cases h3 : IsPow2 (preMax (resolveMm mm maxB) maxB)
       · simp only [pow2c_t h1, pow2c_t h2, pow2c_t h3, Bool.true_eq_false, or_self, if_false,
           Option.isSome_some, true_iff]
         refine ⟨h1, h2, ?_⟩
-        unfold preMax at h3
+        rw [preMax_eq] at h3
         split at h3
         · rename_i hc; exact Or.inr ⟨hc.2, hc.1⟩
         · exact Or.inl h3
       · simp only [pow2c_f h3, or_true, if_true, Option.isSome_none, Bool.false_eq_true, false_iff]
         rintro ⟨-, -, h | ⟨h, h'⟩⟩
-        · apply h3; unfold preMax
+        · apply h3; rw [preMax_eq]
           split
           · exact ⟨63, rfl⟩
           · exact h
-        · apply h3; unfold preMax; rw [if_pos ⟨h', h⟩]; exact ⟨63, rfl⟩
+        · apply h3; rw [preMax_eq, if_pos ⟨h', h⟩]; exact ⟨63, rfl⟩
     · simp [pow2c_f h2, h2]
   · simp [pow2c_f h1, h1]
+
+theorem pow2_div_1024 {x y : Nat} (hx : IsPow2 x) (hy : IsPow2 y) : IsPow2 (max y (x / 1024)) := by
+  obtain ⟨m, rfl⟩ := hx
+  by_cases hm : m < 10
+  · have : 2^m / 1024 = 0 := by
+      apply Nat.div_eq_of_lt
+      calc 2^m < 2^10 := Nat.pow_lt_pow_right (by decide) hm
+        _ = 1024 := by decide
+    rw [this, Nat.max_eq_left (Nat.zero_le _)]; exact hy
+  · have : 2^m / 1024 = 2^(m-10) := by
+      have e : (1024 : Nat) = 2^10 := by decide
+      rw [e, Nat.pow_div (by omega) (by decide)]
+    rw [this]; exact pow2_max hy ⟨_, rfl⟩
+
+theorem pow2_le_63 {x : Nat} (h : IsPow2 x) (hx : x < 2^64) : x ≤ 2^63 := by
+  obtain ⟨k, hk, rfl⟩ := pow2_lt64 h hx
+  exact Nat.pow_le_pow_right (by decide) (by omega)
+
+/-- **what accepted arguments are normalised to** (for `unsigned long` arguments and a
+power-of-two page size).  In particular `1 ≤ size ≤ max`, all three are powers of two, also
+for `max < init` (size clamped down) and `min > max` (max raised). -/
+theorem newNorm_some {page init minA maxB flags : Nat} {mm : Option Mm} {c : Cfg} (hpage : IsPow2 page)
+    (hm : minA < 2^64) (hx : maxB < 2^64)
+    (h : newNorm page init minA maxB flags mm = some c) :
+    c.mm = resolveMm mm maxB ∧ c.flags = flags ∧ c.maxB = effMax minA maxB ∧ c.size = min init c.maxB ∧
+    c.minAlloc = effMinAlloc page minA c.maxB c.mm ∧
+    (∃ k, k < 64 ∧ c.size = 2^k) ∧ (∃ m, m < 64 ∧ c.maxB = 2^m) ∧ 1 ≤ c.size ∧ c.size ≤ c.maxB ∧
+    c.minAlloc = 2^c.minAllocOrder ∧ minA ≤ c.minAlloc ∧ c.minAlloc ≤ c.maxB := by
+  rw [newNorm_eq] at h
+  split at h
+  · cases h
+  rename_i hc
+  have hc' := hc
+  simp only [not_or, Bool.not_eq_false] at hc'
+  obtain ⟨p1, p2, p3⟩ := hc'
+  have q1 : IsPow2 minA := (isPow2C_iff _).1 p1
+  have q2 : IsPow2 init := (isPow2C_iff _).1 p2
+  have q3 : IsPow2 (preMax (resolveMm mm maxB) maxB) := (isPow2C_iff _).1 p3
+  have m1 : max minA 1 = minA := Nat.max_eq_left (pow2_pos q1)
+  have i1 : max init 1 = init := Nat.max_eq_left (pow2_pos q2)
+  simp only [m1, i1, Option.some.injEq] at h
+  have heM : max (preMax (resolveMm mm maxB) maxB) minA = effMax minA maxB := by
+    rw [preMax_eq] at q3 ⊢
+    unfold effMax
+    by_cases h0 : maxB = 0
+    · subst h0
+      by_cases ho : resolveMm mm 0 = .order
+      · rw [if_pos ⟨ho, rfl⟩, if_pos rfl]
+        exact Nat.max_eq_left (pow2_le_63 q1 hm)
+      · exfalso
+        rw [if_neg (fun hh => ho hh.1)] at q3
+        have := pow2_pos q3; omega
+    · simp [h0]
+  have qM : IsPow2 (effMax minA maxB) := by rw [← heM]; exact pow2_max q3 q1
+  have hM64 : effMax minA maxB < 2^64 := by
+    unfold effMax; split
+    · decide
+    · exact Nat.max_lt.2 ⟨hx, hm⟩
+  have qS : IsPow2 (min init (effMax minA maxB)) := pow2_min q2 qM
+  have hsize : 2 ^ countOrderNat (min init (effMax minA maxB)) = min init (effMax minA maxB) := by
+    obtain ⟨k, hk⟩ := qS; rw [hk, countOrderNat_pow2]
+  have hminle : minA ≤ effMax minA maxB := by rw [← heM]; exact Nat.le_max_right _ _
+  have qA : IsPow2 (allocMin page (resolveMm mm maxB) minA (effMax minA maxB)) ∧
+      minA ≤ allocMin page (resolveMm mm maxB) minA (effMax minA maxB) ∧
+      allocMin page (resolveMm mm maxB) minA (effMax minA maxB) ≤ effMax minA maxB ∧
+      allocMin page (resolveMm mm maxB) minA (effMax minA maxB) =
+        effMinAlloc page minA (effMax minA maxB) (resolveMm mm maxB) := by
+    cases resolveMm mm maxB with
+    | order => exact ⟨q1, Nat.le_refl _, hminle, rfl⟩
+    | chunk =>
+      simp only [allocMin, effMinAlloc, max_chunk_table_eq]
+      refine ⟨pow2_div_1024 qM q1, Nat.le_max_left _ _, Nat.max_le.2 ⟨hminle, Nat.div_le_self _ _⟩, trivial⟩
+    | mmap =>
+      simp only [allocMin, effMinAlloc]
+      split
+      · exact ⟨qM, hminle, Nat.le_refl _, trivial⟩
+      · exact ⟨pow2_max q1 hpage, Nat.le_max_left _ _, Nat.max_le.2 ⟨hminle, by omega⟩, trivial⟩
+  rw [heM] at h
+  subst h
+  obtain ⟨k, hk, hkk⟩ := pow2_lt64 qS (Nat.lt_of_le_of_lt (Nat.min_le_right _ _) hM64)
+  obtain ⟨m, hmm, hmk⟩ := pow2_lt64 qM hM64
+  obtain ⟨a, ha⟩ := qA.1
+  refine ⟨rfl, rfl, rfl, hsize, qA.2.2.2, ⟨k, hk, hsize.trans hkk⟩, ⟨m, hmm, hmk⟩, ?_, ?_, ?_, qA.2.1, qA.2.2.1⟩
+  · show 1 ≤ 2 ^ countOrderNat _; exact Nat.pow_pos (by decide)
+  · show 2 ^ countOrderNat _ ≤ _; rw [hsize]; exact Nat.min_le_right _ _
+  · show allocMin _ _ _ _ = 2 ^ countOrderNat (allocMin _ _ _ _)
+    rw [ha, countOrderNat_pow2]
+
+/-- the table built by an accepted `cds_lfht_new` is well-formed and empty -/
+theorem ofCfg_wf {page init minA maxB flags : Nat} {mm : Option Mm} {c : Cfg} (hpage : IsPow2 page)
+    (hm : minA < 2^64) (hx : maxB < 2^64) (h : newNorm page init minA maxB flags mm = some c) :
+    ∃ t, Table.ofCfg c = some t ∧ WF t ∧ userIds t.list = [] ∧ t.dead = [] ∧ t.size = c.size ∧ t.maxB = c.maxB := by
+  obtain ⟨-, -, -, -, -, ⟨k, hk, hs⟩, hmax, -, hle, -⟩ := newNorm_some hpage hm hx h
+  obtain ⟨l, a1, a2, a3⟩ := createBuckets_spec (k := k) (by omega)
+  refine ⟨{ size := c.size, maxB := c.maxB, list := l, dead := [] }, ?_, ?_, ?_, rfl, rfl, rfl⟩
+  · simp [Table.ofCfg, hs, a1]
+  · refine ⟨⟨k, hk, hs⟩, ?_, by simp, by simp, by simp, ?_⟩
+    · show LInv (· < c.size) l; rw [hs]; exact a2
+    · obtain ⟨m, h1, h2⟩ := hmax; exact ⟨m, h1, h2, hle⟩
+  · show userIds l = []
+    unfold userIds; unfold users at a3; rw [a3]; rfl
 
 end UrcuVerif.Lfht.Seq
